@@ -168,3 +168,67 @@ Theorem C06_spans_ordered_nested a b c s e s' e' :
    (forall x, In x a -> tpos (snd x) <= tpos s') /\ (forall y, In y c -> tpos e' <= tpos (fst y)))%Z.
 Proof. exact (spans_ordered_nested a b c s e s' e'). Qed.
 Print Assumptions C06_spans_ordered_nested.
+
+(* ---- tree level (round 3): composition of lexer_coords, the LALR driver and PropagatePositions -------
+   For str, bytes (instantiate the character type) and any TextSlice window [a,e) of any buffer T: in the
+   tree returned by the LALR pipeline (Pos/TreeShift.parse_slice: lex_slice -> LR/Driver.feed over an
+   abstract table -> PropagatePositions around Shape/Chain.run_callback) every token satisfies the token
+   claim and every position triple of every meta - own and container, start and end - is an exact
+   source coordinate inside the window (its line/column are coord T of its offset). *)
+From LV Require Import Cfg.Grammar Shape.Chain Pos.TreeShift Pos.TreeShift_proofs Pos.TreeSpan_proofs.
+From LV Require LR.Driver.
+
+Theorem C06_tree_coords_exact {A term : Type} (eqb : A -> A -> bool) (nl : A)
+  (rr : rule -> rrec) (mp : bool) (tnum : term -> nat) (end_term : term) (P : Driver.ptable)
+  (T : list A) (a e : nat)
+  (scan : list term -> list A -> Z -> Z -> option (nat * term)) (ignore newline_types : term -> bool) fuel v :
+  (a <= e)%nat -> (e <= List.length T)%nat ->
+  (forall h (p n : nat) ty, scan h T (Z.of_nat p) (Z.of_nat e) = Some (n, ty) -> (p + n <= e)%nat) ->
+  parse_slice rr mp tnum end_term P eqb nl scan ignore newline_types fuel T (Z.of_nat a) (Z.of_nat e) = RTree v ->
+  Forall (tok_ok eqb nl T a e) (vtokens v) /\ Forall (trip_exact eqb nl T a e) (vtrips v).
+Proof. exact (tree_coords_exact_partial eqb nl rr mp tnum end_term P T a e scan ignore newline_types fuel v). Qed.
+Print Assumptions C06_tree_coords_exact.
+
+(* EXTENT, on the derivations the driver builds (any derivation d over positioned tokens; [good_d]
+   excludes finding F23: a sub-derivation whose value is a bare token or None matched nothing else).
+   The value of d offers its parent exactly the span first..last of the tokens d matched, filtered
+   ones included, through inlined rules (container fields); its meta is empty iff d matched nothing. *)
+Theorem C06_tree_container_span {A term : Type} (rr : rule -> rrec) (mp : bool)
+  (d : Driver.dtree (token A term)) name m ch :
+  good_d rr mp d -> tree_of rr mp d = Some (VTree name m ch) ->
+  (Y d = [] <-> m_empty m = true) /\
+  (Y d <> [] -> or_else (m_cstart m) (m_start m) = first_start (Y d) /\
+                or_else (m_cend m) (m_end m) = last_end (Y d)).
+Proof. exact (tree_container_span rr mp d name m ch). Qed.
+Print Assumptions C06_tree_container_span.
+
+(* ... and a tree CREATED by the rule application (not handed through by an inlined ?rule) has that span
+   as its own meta: start of the first, end of the last matched token. *)
+Theorem C06_tree_own_span {A term : Type} (rr : rule -> rrec) (mp : bool) r
+  (cs : list (Driver.dtree (token A term))) vs name m ch :
+  good_d rr mp (Driver.Node r cs) ->
+  all_some (map (tree_of rr mp) cs) = Some vs ->
+  tree_of rr mp (Driver.Node r cs) = Some (VTree name m ch) ->
+  (exists m0, old_value vs (VTree name m0 ch)) \/
+  (m_start m = first_start (Y (Driver.Node r cs)) /\ m_end m = last_end (Y (Driver.Node r cs)) /\
+   m_cstart m = m_start m /\ m_cend m = m_end m).
+Proof. exact (tree_own_span rr mp r cs vs name m ch). Qed.
+Print Assumptions C06_tree_own_span.
+
+(* Non-vacuity: rule  pair: "(" NUM ")"  (parentheses filtered out) applied to the tokens of "(7)" on
+   line 2: the derivation is [good_d], the tree keeps only NUM, and its meta spans the parentheses. *)
+Definition ex4_rule := mkRule 0%nat [T 0%nat; T 1%nat; T 2%nat].
+Definition ex4_rr (_ : rule) : rrec :=
+  mkR "pair" [mkSym true "LPAR" true; mkSym true "NUM" false; mkSym true "RPAR" true] None None false false [].
+Definition ex4_d : Driver.dtree (token ascii string) :=
+  Driver.Node ex4_rule [Driver.Leaf (mkTok "LPAR" (txt "(") 5 2 1 2 2 6); Driver.Leaf (mkTok "NUM" (txt "7") 6 2 2 2 3 7);
+                        Driver.Leaf (mkTok "RPAR" (txt ")") 7 2 3 2 4 8)].
+Example C06_tree_example :
+  good_d ex4_rr true ex4_d /\
+  tree_of ex4_rr true ex4_d =
+    Some (VTree "pair" (mkMeta (Some (5, 2, 1)) (Some (8, 2, 4)) (Some (5, 2, 1)) (Some (8, 2, 4)))%Z
+            [VTok (mkTok "NUM" (txt "7") 6 2 2 2 3 7)]).
+Proof.
+  split; [|vm_compute; reflexivity].
+  intros d' [<- | [<- | [<- | [<- | []]]]]; vm_compute; first [exact I | reflexivity].
+Qed.
